@@ -136,6 +136,19 @@ static int aux_int; /* extra argument (auto_out_size) for the hex functions */
 static int want_reinvoke; /* the case line ends with the token R: call again with exactly the reported size */
 static int w_b2h(const uint8_t *s, size_t n, uint8_t *d, size_t c, size_t *r) { return cvt_bin2hex(s, n, aux_int, d, c, r); }
 static int w_h2b(const uint8_t *s, size_t n, uint8_t *d, size_t c, size_t *r) { return cvt_hex2bin(s, n, aux_int, d, c, r); }
+/* mem_replace_arr called directly with the pattern tables of specs/bufsafe/BsReplArr.tla (aux_int = table 1..3) */
+static int w_repl(const uint8_t *s, size_t n, uint8_t *d, size_t c, size_t *r) {
+	static const void *pa[] = { "abc", "bcd" }, *ra[] = { "X", "YY" };
+	static const size_t pan[] = { 3, 3 }, ran[] = { 1, 2 };
+	static const void *pb[] = { "ab", "bc", "ca" }, *rb[] = { "Q", "RRR", "" };
+	static const size_t pbn[] = { 2, 2, 2 }, rbn[] = { 1, 3, 0 };
+	static const void *pc[] = { "aa", "ab", "ba" }, *rc_[] = { "a", "bbbb", "dd" };
+	static const size_t pcn[] = { 2, 2, 2 }, rcn[] = { 1, 4, 2 };
+	size_t cnt = 0;
+	if (aux_int == 1) return mem_replace_arr(s, n, 2, NULL, pa, pan, ra, ran, d, c, r, &cnt);
+	if (aux_int == 2) return mem_replace_arr(s, n, 3, NULL, pb, pbn, rb, rbn, d, c, r, &cnt);
+	return mem_replace_arr(s, n, 3, NULL, pc, pcn, rc_, rcn, d, c, r, &cnt);
+}
 
 /* call fn(in, cap); when it fails and reports a size, call again with exactly that size */
 static void do_sized(const char *op, sized_fn fn, const char *hex, size_t cap, char place) {
@@ -503,6 +516,7 @@ static void run_case(char **tok, int nt) {
 	else if (!strcmp(op, "b64decfmt")) do_sized(op, base64_decode_fmt, ARG(2), NUM(3), pl);
 	else if (!strcmp(op, "bin2hex")) { aux_int = (int)NUM(4); do_sized(op, w_b2h, ARG(2), NUM(3), pl); }
 	else if (!strcmp(op, "hex2bin")) { aux_int = (int)NUM(4); do_sized(op, w_h2b, ARG(2), NUM(3), pl); }
+	else if (!strcmp(op, "repla") || !strcmp(op, "replb") || !strcmp(op, "replc")) { aux_int = 1 + (op[4] - 'a'); do_sized(op, w_repl, ARG(2), NUM(3), pl); }
 	else if (!strcmp(op, "xmlenc")) do_sized(op, xml_encode, ARG(2), NUM(3), pl);
 	else if (!strcmp(op, "xmldec")) do_sized(op, xml_decode, ARG(2), NUM(3), pl);
 	else if (!strcmp(op, "n2s")) do_n2s(ARG(2), ARG(4), NUM(3), pl);
